@@ -104,6 +104,8 @@ def compare(P, name, cfg, got_narr, want_farr, cons, solver_stats):
         bad.append(_r(val(g)) != _r(w))
     solver_stats.queries += 1
     r = s.check(z3.Or(bad)) if bad else z3.unsat
+    if bad and hasattr(solver_stats, "note_query"):
+        solver_stats.note_query(list(cons) + [z3.Or(bad)], r)
     if r == z3.unsat:
         P.obligation(f"contract:{name}{cfg}", "holds", symbolic=True)
         return True
